@@ -58,7 +58,7 @@ def run(tier):
         _merge(ck, json.load(open(o)), "" if cfg == "stable" else "[%s] " % cfg)
     nrand = 1000000 if thorough else 20000
     # nightly: the same sweep with heap / locked containers and the locked precomputed keys
-    for cfg in ["stable", "nightly"] + (["simd"] if thorough else []):
+    for cfg in ["stable", "nightly", RELEASE] + (["simd"] if thorough else []):
         o = os.path.join(wd, "sweep_%s.json" % cfg)
         conform(cfg, ["prims-sweep-c05", tf, o, ck.seed, nrand if cfg == "stable" else (20000 if thorough else 2000), 1000], timeout=3400)
         _merge(ck, json.load(open(o)), "" if cfg == "stable" else "[%s] " % cfg)
